@@ -444,6 +444,11 @@ class Interp:
             ga = self.lookup_class_attr(o.cls, "__getattr__")
             if ga is not None and self.is_interp_func(ga[0]):
                 return self.call_function(ga[0], [o, name], {}, defcls=ga[1])
+            if getattr(o, "from_spec", False) and not self.cfg.get("_probing"):
+                # the object was built from an Obj(...) specification that lists its fields: the code reads a
+                # field the specification does not know (e.g. one added to the class later). That is a gap of
+                # the specification - the check cannot decide - not an AttributeError of the code.
+                raise Unsupported(f"the object specification of {o.cls.__name__} does not describe attribute '{name}' which the code reads")
             self.raise_py(AttributeError, f"'{o.cls.__name__}' object has no attribute '{name}'")
         return self.bind_class_attr(o, r[0], r[1], name)
 
